@@ -197,9 +197,18 @@ func c13NewRing(base int) *hash.ConsistentHash {
 	return hash.NewCustomConsistentHash(base, nil)
 }
 
+// c13NewRingSet creates a ring with an explicit REPLICA SETTING (the "new" operation of a history):
+// always through NewCustomConsistentHash, with the caller-supplied hash function when VERIF_HASH=fnv.
+func c13NewRingSet(setting int) *hash.ConsistentHash {
+	if kit.Env("VERIF_HASH", "") == "fnv" {
+		return hash.NewCustomConsistentHash(setting, c13Fnv)
+	}
+	return hash.NewCustomConsistentHash(setting, nil)
+}
+
 func c13Apply(r *hash.ConsistentHash, st kit.M, node any, removeFirst bool, p *c13Pan) error {
 	op := kit.Str(st["op"])
-	if removeFirst && op != "remove" && op != "lookup" {
+	if removeFirst && op != "remove" && op != "lookup" && op != "new" {
 		p.call("remove", func() { r.Remove(node) })
 	}
 	switch op {
@@ -213,7 +222,7 @@ func c13Apply(r *hash.ConsistentHash, st kit.M, node any, removeFirst bool, p *c
 		p.call(op, func() { r.AddWithReplicas(node, n) })
 	case "remove":
 		p.call(op, func() { r.Remove(node) })
-	case "lookup":
+	case "lookup", "new":
 	default:
 		return fmt.Errorf("unknown op %q", op)
 	}
@@ -229,7 +238,15 @@ func runC13Case(w *c13World, c kit.Case, base int, tr *kit.Tracer) kit.Verdict {
 	for _, st := range c.Steps {
 		op := kit.Str(st["op"])
 		var node any
-		if op != "lookup" {
+		if op == "new" {
+			// the history creates its ring itself, with the replica setting the generator chose
+			set := kit.Num(st["set"])
+			var m2, s2 *hash.ConsistentHash
+			pan.call("new", func() { m2, s2 = c13NewRingSet(set), c13NewRingSet(set) })
+			if m2 != nil && s2 != nil {
+				main, shadow = m2, s2
+			}
+		} else if op != "lookup" {
 			var ok bool
 			if node, ok = w.nodes[kit.Str(st["n"])]; !ok {
 				return kit.Verdict{Case: c.Index, Infra: true, Msg: "unknown node " + kit.Str(st["n"])}
@@ -240,7 +257,7 @@ func runC13Case(w *c13World, c kit.Case, base int, tr *kit.Tracer) kit.Verdict {
 		}
 		c13Apply(shadow, st, node, true, pan)
 		ev := kit.M{"ev": op}
-		for _, f := range []string{"n", "w", "r"} {
+		for _, f := range []string{"n", "w", "r", "set"} {
 			if x, ok := st[f]; ok {
 				ev[f] = x
 			}
@@ -249,7 +266,7 @@ func runC13Case(w *c13World, c kit.Case, base int, tr *kit.Tracer) kit.Verdict {
 		ev["asg2"] = w.look(main, w.probe, pan)
 		cur := w.lookPop(main, pan)
 		var alt []string
-		if op != "remove" && op != "lookup" {
+		if op != "remove" && op != "lookup" && op != "new" {
 			// reference for "re-adding replaces the previous virtual nodes"
 			ev["alt"] = w.look(shadow, w.probe, pan)
 			alt = w.lookPop(shadow, pan)
@@ -423,7 +440,14 @@ func TestVerifC13Shares(t *testing.T) {
 	base := kit.EnvInt("VERIF_BASE", 150)
 	pop := kit.EnvInt("VERIF_POP", 40000)
 	var ring *hash.ConsistentHash
-	if base == 100 {
+	if set := kit.Env("VERIF_SETTING", ""); set != "" {
+		// replica setting as given by the check (below the minimum: the ring must behave as base 100)
+		n, err := strconv.Atoi(set)
+		if err != nil {
+			t.Fatal(err)
+		}
+		ring = hash.NewCustomConsistentHash(n, nil)
+	} else if base == 100 {
 		ring = hash.NewConsistentHash()
 	} else {
 		ring = hash.NewCustomConsistentHash(base, nil)
